@@ -259,6 +259,18 @@ func c20Doc1(d *mocrelay.NIP11) any {
 		var served mocrelay.NIP11
 		o["served"] = json.Valid(body) && json.Unmarshal(body, &served) == nil && docEqual(&served, d) &&
 			rec.Result().Header.Get("Content-Type") == "application/nostr+json" && rec.Result().Header.Get("Access-Control-Allow-Origin") == "*"
+		// the configuration changes behind the same pointer (an operator edits the relay's document at run time):
+		// the next answer is the document as it is NOW, on the same mux and the same *NIP11
+		mux := &mocrelay.ServeMux{NIP11: d}
+		rec0 := httptest.NewRecorder()
+		mux.ServeHTTP(rec0, req)
+		d.Name += "+"
+		d.Description = "changed " + d.Description
+		rec2 := httptest.NewRecorder()
+		mux.ServeHTTP(rec2, req)
+		body2, _ := io.ReadAll(rec2.Result().Body)
+		var served2 mocrelay.NIP11
+		o["servedAfterChange"] = json.Valid(body2) && json.Unmarshal(body2, &served2) == nil && docEqual(&served2, d)
 	}
 	return M{"op": "doc", "doc": dj, "out": o}
 }
